@@ -490,7 +490,8 @@ class Gen:
             if shape >= 0.75 or r.random() < 0.3:
                 self.feats.add('finally')
                 b4, _, _ = self.block(1, ints, seqs, 0, False)
-                b4 = [l for l in b4 if not l.strip().startswith(('return', 'break', 'continue'))] or ['pass']
+                b4 = [(l[:len(l) - len(l.lstrip())] + 'pass') if l.strip().startswith(('return', 'break', 'continue')) else l
+                      for l in b4] or ['pass']
                 out += ['finally:'] + ind(b4)
             return out, ints, seqs, False
         x = r.random()
